@@ -2,7 +2,36 @@
 from common import mc, lts_replay, drive_tv
 
 
+def design(ctx):
+    # D: BTree.tla (the code's split / steal / merge / cascade / root-collapse algorithms in functional form):
+    #    every Put/Delete history over 9 (11, 13) keys with fan-out 4 (5) keeps all C03 invariants and denotes the map
+    mc(ctx, "tree", "BTree", "bt3.cfg", "BTree fan-out 4, 9 keys", coverage=False)
+    mc(ctx, "tree", "BTree", "bt4.cfg", "BTree fan-out 5, 11 keys", coverage=False)
+    if not ctx.quick():
+        mc(ctx, "tree", "BTree", "bt3_13.cfg", "BTree fan-out 4, 13 keys (3 levels)", coverage=False, timeout=3000)
+
+
+def drift(ctx, cfg, variant, runs, ops):
+    """re-execute a recorded history on the BTreeOps model with the shipped fan-out and compare the node structure
+    after every mutation with the logged one. A mismatch is model drift (a note), never a verdict."""
+    import vlib
+    tf = ctx.path("drift-%s.ndjson" % variant.replace(":", "-"))
+    rc, o = ctx.run_vh(["drive", "tree", "-out", tf, "-runs", str(runs), "-ops", str(ops), "-variant", variant])
+    if rc != 0:
+        raise vlib.Trouble("driver died: " + o[-1500:])
+    acc, r, hwm = ctx.tv("tree", "Trace_Tree", cfg, tf, timeout=3000)
+    ctx.extra.setdefault("model_drift_checks", []).append({"variant": variant, "cfg": cfg, "node_by_node_agreement": acc, "first_disagreement_line": None if acc else hwm})
+    if acc:
+        ctx.traces += runs
+        ctx.log("drift %s: BTreeOps model agrees node by node with the code's logged structure" % variant)
+    else:
+        ctx.notes.append("model-drift: BTreeOps and the logged structure disagree at line %s of %s (the model needs updating; not a verdict)" % (hwm, variant))
+        ctx.log("drift %s: DISAGREEMENT at line %s (note only)" % (variant, hwm))
+
+
 def run(ctx):
+    design(ctx)
+    drift(ctx, "tvd_Id320.cfg", "mix:320", ctx.pick(8, 60), ctx.pick(500, 1200))
     # T: the full node structure is logged after every Put/Delete and judged by TreeShape (TLC):
     #    ordering, one search path per key, uniform leaf depth, half-full nodes, depth bound, Len,
     #    parent links, cleared slots; Get/Contains comparator calls <= 15 per level
